@@ -13,6 +13,8 @@ Events (all on the real object, mirrored on the model):
         M,d  the original memory of the same base d bytes further (shifted copy, NOT a write-back)
         S,d  a slice of a wider memory read  @(w+16)[base+off+d-1][8:8+w]   (d = 0: write-back through a slice)
         K    {X8, @8[base+off+1]}: byte 0 new, byte 1 a write-back
+        R,d  a slice of the store's *current* answer for a wider cell: symbols.read(@(w+16)[base+off+d-1])[8:8+w]
+             (d = 0 copies the cell onto itself, d > 0 is an overlapping memmove)
         Z    the original memory of another base
   ("del", base, off, w)      del symbols[@w[base+off]]   (KeyError expected iff some byte is not stored)
   ("delp", base, off, w)     symbols.symbols_mem.delete_partial(@w[base+off])
@@ -37,7 +39,7 @@ from mc.runner import violation
 PROP = "C13"
 LEVEL = "model_checking"
 ENGINE = "bfs"
-RULE = ("BFS over histories of writes (8 value kinds x widths 8..64 at the two last and two first offsets of the address space), "
+RULE = ("BFS over histories of writes (9 value kinds x widths 8..64 at the two last and two first offsets of the address space), "
         "full / partial deletions, state export->import into a fresh engine and copy(), on the real SymbolMngr for address sizes "
         "8 and 32 and bases integer / A / A+B; a state is distinct by (system, model byte dict, the store's own (offset, byte "
         "index, expression) table), i.e. the hidden grouping is part of the state")
@@ -91,7 +93,7 @@ def ptr(asz, base, off):
 CONST = 0x8877665544332211
 
 
-def value(asz, base, off, vk):
+def value(asz, base, off, vk, st=None):
     """-> (expression, list of byte descriptors)"""
     m = _m()
     mask = (1 << asz) - 1
@@ -115,6 +117,15 @@ def value(asz, base, off, vk):
     if kind == "K":
         e = m.ExprCompose(m.ExprId("X8", 8), m.ExprMem(ptr(asz, base, off + 1), 8))
         return e, [("id", "X8", 0), ("o", base, (off + 1) & mask)]
+    if kind == "R":
+        # a slice of what the store currently returns for a wider cell d-1 bytes further (memmove-like copy of current content)
+        d = vk[2]
+        cur = st.engine.symbols.read(m.ExprMem(ptr(asz, base, off + d - 1), w + 16))
+        descs = []
+        for i in range(n):
+            k = (base, (off + d + i) & mask)
+            descs.append(st.model.get(k) or ("o", k[0], k[1]))
+        return m.ExprSlice(cur, 8, 8 + w), descs
     if kind == "Z":
         other = vk[2]
         return m.ExprMem(ptr(asz, other, off), w), [("o", other, (off + i) & mask) for i in range(n)]
@@ -234,11 +245,11 @@ WRITES = [
     (0, ("O", 8)), (-1, ("O", 16)), (-2, ("O", 32)),
     (-1, ("M", 16, 1)), (0, ("M", 16, -1)),
     (0, ("S", 8, 0)), (-1, ("S", 16, 1)),
-    (-1, ("K", 16)),
+    (-1, ("K", 16)), (-1, ("R", 16, 1)),
 ]
 WRITES_MORE = [
     (1, ("X", 8)), (-2, ("X", 64)), (-2, ("Y", 16)), (1, ("C", 16)), (-2, ("M", 32, 1)), (0, ("K", 16)), (-1, ("S", 16, 0)),
-    (0, ("O", 64)), (2, ("X", 32)),
+    (0, ("O", 64)), (2, ("X", 32)), (0, ("R", 16, 0)), (-1, ("R", 8, 2)),
 ]
 DELS = [(-1, 16), (0, 8), (-2, 32)]
 DELS_MORE = [(1, 8), (-1, 8), (0, 16)]
@@ -289,7 +300,7 @@ def apply(st, ev):
     if kind == "w":
         _, base, off, vk = ev
         vk = tuple(vk)
-        e, descs = value(asz, base, off, vk)
+        e, descs = value(asz, base, off, vk, st)
         dst = m.ExprMem(ptr(asz, base, off), vk[1])
         over = 0
         try:
